@@ -2,7 +2,13 @@
    lazily opened zip handle, caches (file list, numbering table, parsed roots,
    collectors).  A read demands resources in a fixed order; a cached resource
    needs nothing, an uncached one needs the archive, which is refused with
-   ValueError once the reader is closed. *)
+   ValueError once the reader is closed.
+
+   The parsed root and the collector are cached PER File OBJECT
+   (File.__root_element, File.__depth_collector), and DocxReader.files holds
+   one File per relationship: two relationships pointing at one part give two
+   File objects with equal paths and separate caches.  A File object is named
+   here by its index in DocxReader.files. *)
 From Coq Require Import List NArith ZArith Bool Arith.
 From D2P Require Import Str Err Xml TableTypes Tables Fmt Bullets Merge Collector Walk Iter
      Output Paths Package Content.
@@ -14,15 +20,16 @@ Inductive zipstate := ZNone | ZOpen | ZClosed.
 Inductive resource :=
 | RFiles                    (* DocxReader.__files *)
 | RNum                      (* DocxReader.__numId2Attrs *)
-| RRoot (path : str)        (* File.__root_element *)
-| RColl (path : str).       (* File.__depth_collector (needs no archive access itself) *)
+| RRoot (i : nat)           (* File.__root_element of DocxReader.files[i] *)
+| RColl (i : nat).          (* File.__depth_collector of DocxReader.files[i]
+                               (needs no archive access itself) *)
 
 Definition resource_eqb (a b : resource) : bool :=
   match a, b with
   | RFiles, RFiles => true
   | RNum, RNum => true
-  | RRoot x, RRoot y => str_eqb x y
-  | RColl x, RColl y => str_eqb x y
+  | RRoot x, RRoot y => Nat.eqb x y
+  | RColl x, RColl y => Nat.eqb x y
   | _, _ => false
   end.
 Fixpoint cached (r : resource) (l : list resource) : bool :=
@@ -50,14 +57,41 @@ Inductive outcome :=
 | OErr (e : exn)            (* raised *)
 | ONone.                    (* close / exit: returns nothing *)
 
+(* ---------- File objects: frecs with their index in DocxReader.files ---------- *)
+Definition indexed (fs : list frec) : list (nat * frec) :=
+  combine (seq 0 (length fs)) fs.
+
+(* DocxReader.files_of_type, keeping the identity of each File:
+   sorted(..., key=attrgetter("path")) is stable, and so is sort_by, so Files
+   with equal paths stay in DocxReader.files order *)
+Definition ifiles_of_types (fs : list frec) (tys : list str) : list (nat * frec) :=
+  sort_by (fun x y => str_leb (f_path (snd x)) (f_path (snd y)))
+          (filter (fun x => mem_str (f_type (snd x)) tys) (indexed fs)).
+Definition ifiles_of_type (fs : list frec) (ty : str) : list (nat * frec) :=
+  ifiles_of_types fs [ty].
+
+(* DocxReader.save: by_path = {x.path: x for x in content_files} — one entry
+   per path, at the position of its first File, holding its LAST File (as
+   Save.save_with); save evaluates root_element of these Files only *)
+Definition isave_by_path (fs : list frec) : list (str * (nat * frec)) :=
+  fold_left (fun d x => dict_set (f_path (snd x)) x d)
+            (filter (fun x => mem_str (f_type (snd x)) save_overwrite_types) (indexed fs)) [].
+Definition save_files (fs : list frec) : list (nat * frec) := map snd (isave_by_path fs).
+
 (* ---------- which resources a read touches, in order ---------- *)
 Section Demands.
   Variable a : archive.
   Variable o : opts.
   Variable fs : list frec.         (* DocxReader.files, when it can be computed *)
 
-  Definition rels_file_of (f : frec) : list frec :=
-    filter (fun x => str_eqb (f_target x) (rels_path (f_path f))) fs.
+  (* File.rels_element:
+       rels_files = [x for x in self.context.files if x.Target == self._rels_path]
+       if len(rels_files) == 1: return rels_files[0].root_element
+       return None
+     the File objects of DocxReader.files whose raw Target (not path) equals the
+     rels path of f; its root is demanded only when there is exactly one *)
+  Definition rels_file_of (f : frec) : list (nat * frec) :=
+    filter (fun x => str_eqb (f_target (snd x)) (rels_path (f_path f))) (indexed fs).
 
   (* does evaluating the part touch file.rels?  (lazily: only when some
      element carries a relationship id) *)
@@ -83,23 +117,32 @@ Section Demands.
   Definition rels_demand (f : frec) (needed : bool) : list resource :=
     if needed then
       match rels_file_of f with
-      | [rf] => [RRoot (f_path rf)]
+      | [rf] => [RRoot (fst rf)]
       | _ => []
       end
     else [].
 
+  Definition raw_of (f : frec) : anode :=
+    match member_xml a (f_path f) with Ok r => view r | Err _ => AX None end.
+
+  (* File.root_element of files[i]: the part is parsed, then (content types)
+     merge_elems runs, which looks at file.rels lazily *)
+  Definition root_demands (x : nat * frec) : list resource :=
+    let f := snd x in
+    [RRoot (fst x)]
+      ++ rels_demand f (mem_str (f_type f) content_file_types && uses_rid_merge (raw_of f)).
+
   (* File.depth_collector of a content part *)
-  Definition coll_demands (f : frec) : list resource :=
-    let raw := match member_xml a (f_path f) with Ok r => view r | Err _ => AX None end in
-    let merged := match part_root a fs o f with Ok m => m | Err _ => raw end in
-    [RRoot (f_path f)]
-      ++ rels_demand f (mem_str (f_type f) content_file_types && uses_rid_merge raw)
+  Definition coll_demands (x : nat * frec) : list resource :=
+    let f := snd x in
+    let merged := match part_root a fs o f with Ok m => m | Err _ => raw_of f end in
+    root_demands x
       ++ [RNum]
       ++ rels_demand f (uses_rid_walk merged)
-      ++ [RColl (f_path f)].
+      ++ [RColl (fst x)].
 
   Definition type_demands (ty : str) : list resource :=
-    concat (map coll_demands (files_of_type fs ty)).
+    concat (map coll_demands (ifiles_of_type fs ty)).
 
   Definition attr_demands (x : attr) : list resource :=
     RFiles ::
@@ -108,23 +151,27 @@ Section Demands.
     | ADocPars | ADocRuns | ADoc | AText | AHtmlMap => concat (map type_demands part_order)
     | AImages => []                (* the archive itself is read for every image: see step *)
     | ACore =>
-        match files_of_type fs s_core_properties with
-        | f :: _ => [RRoot (f_path f)]
+        match ifiles_of_type fs s_core_properties with
+        | f :: _ => [RRoot (fst f)]
         | [] => []
         end
     | AComments =>
-        match files_of_type fs s_officeDocument with
+        match ifiles_of_type fs s_officeDocument with
         | od :: _ =>
             coll_demands od ++
-            match files_of_type fs s_comments with
+            match ifiles_of_type fs s_comments with
             | cf :: _ =>
-                let croot := match member_xml a (f_path cf) with Ok r => view r | Err _ => AX None end in
-                [RRoot (f_path cf); RNum] ++ rels_demand cf (uses_rid_walk croot)
+                [RRoot (fst cf); RNum] ++ rels_demand (snd cf) (uses_rid_walk (raw_of (snd cf)))
             | [] => []
             end
         | [] => []
         end
     end.
+
+  (* DocxReader.save: file.root_element for the LAST File of each path among
+     the content and relationships parts, in order of first occurrence *)
+  Definition save_demands : list resource :=
+    concat (map root_demands (save_files fs)).
 End Demands.
 
 (* does this read go to the archive directly, whatever is cached? *)
@@ -190,10 +237,8 @@ Definition step (a : archive) (o : opts) (fs : list frec) (st : lstate) (x : op)
           match e2 with
           | Some ex => (st2, OErr ex)
           | None =>
-              (* root_element of every content and relationships part *)
-              let roots := map (fun f => RRoot (f_path f))
-                               (filter (fun f => mem_str (f_type f) save_overwrite_types) fs) in
-              let '(st3, e3) := acquire st2 roots in
+              (* root_element of the last File of every content and relationships part *)
+              let '(st3, e3) := acquire st2 (save_demands a fs) in
               (st3, match e3 with Some ex => OErr ex | None => OVal end)
           end
       end
